@@ -535,15 +535,9 @@ func (fr *Frame) convert(st *State, in *ssa.Convert) string {
 		arr := c.define("arr", "Loc", x.alloc(st, "bytes"))
 		n := sx("s_len", a)
 		r := sx("mk_slice", arr, c.idx(0), n, n)
-		key := "H:(_ BitVec 8)"
-		h0 := x.get(st, key)
-		h1 := c.freshConst("H_bytes", x.compSort(key))
-		l := c.fresh("l")
-		c.assume(fmt.Sprintf("(forall ((%s Loc)) (! (=> (not (= (ref %s) (ref %s))) (= (select %s %s) (select %s %s))) :pattern ((select %s %s))))", l, l, arr, h1, l, h0, l, h1, l))
-		i := c.fresh("i")
-		c.assume(fmt.Sprintf("(forall ((%s %s)) (! (=> (and %s %s) (= (select %s %s) (s_at %s %s))) :pattern ((select %s %s))))",
-			i, c.idxSort(), x.leIdx(c.idx(0), i), x.ltIdx(i, n), h1, elt(arr, i), a, i, h1, elt(arr, i)))
-		st.Comp[key] = h1
+		x.bulkWrite(st, types.Typ[types.Uint8], arr, c.idx(0), n, func(i string, lp leafPath, pre map[string]string) string {
+			return sx("s_at", a, i)
+		})
 		return r
 	case fs == ts:
 		return a
@@ -655,28 +649,12 @@ func (fr *Frame) sliceOp(st *State, in *ssa.Slice, def func(ssa.Value, string)) 
 // zero the first n elements of a fresh slice (quantified for unbounded n; skipped for struct elems)
 func (x *Exec) zeroSlice(st *State, elem types.Type, s, n string) {
 	c := x.c
-	sorts := x.leafSorts(elem, nil)
-	if len(sorts) != 1 {
+	if v, ok := bv64(n); (ok && v == 0) || n == "0" {
 		return
 	}
-	for srt := range sorts {
-		if _, isStruct := elem.Underlying().(*types.Struct); isStruct {
-			return
-		}
-		if _, isArr := elem.Underlying().(*types.Array); isArr {
-			return
-		}
-		key := "H:" + srt
-		h0 := x.get(st, key)
-		h1 := c.freshConst(mangle(key)+"_mk", x.compSort(key))
-		arr := sx("sl_arr", s)
-		l := c.fresh("l")
-		c.assume(fmt.Sprintf("(forall ((%s Loc)) (! (=> (not (= (ref %s) (ref %s))) (= (select %s %s) (select %s %s))) :pattern ((select %s %s))))", l, l, arr, h1, l, h0, l, h1, l))
-		i := c.fresh("i")
-		c.assume(fmt.Sprintf("(forall ((%s %s)) (! (= (select %s %s) %s) :pattern ((select %s %s))))",
-			i, c.idxSort(), h1, elt(arr, i), c.zero(elem), h1, elt(arr, i)))
-		st.Comp[key] = h1
-	}
+	x.bulkWrite(st, elem, sx("sl_arr", s), c.idx(0), n, func(i string, lp leafPath, pre map[string]string) string {
+		return zeroOfSort(c, lp.sort)
+	})
 }
 
 func (fr *Frame) chanOp(st *State, what string, pos token.Pos) {
